@@ -35,6 +35,7 @@
 -/
 import JdProofs.EqualsList
 import JdProofs.EqualsSet
+import JdProofs.OptSites
 
 namespace Jd.Props.C04
 open Jd Jd.Spec
@@ -151,5 +152,14 @@ theorem alias_string_number :
 /-- after the repair of D5b (`0` and `-0` hash alike, commit ff3e30d): `[0]` and `[-0]` are Equal as sets too -/
 theorem negzero_equal_as_sets_after_fix :
     equals [.set] (.arr .raw [.num 0]) (.arr .raw [.num 0x8000000000000000]) = true := by decide +kernel
+
+/-! ### Option plumbing of the Go source = the model's (regenerated table, JdProofs/OptSites.lean)
+
+   Which option list each call inside v2/ and lib/ passes to `hashCode` / `Equals` / `diff` / `ident` / `dispatch` … is
+   regenerated from the Go source on every run (tools/optfacts, 187 sites) and proved equal to the table the model was
+   written against. A dropped or added option argument breaks this, whether or not a generated input reaches it. -/
+
+theorem option_plumbing_as_modelled : Gen.optSites = Jd.OptSites.expected :=
+  Jd.OptSites.option_plumbing_as_modelled
 
 end Jd.Props.C04
